@@ -21,6 +21,7 @@ RULE = (
     "continuation / indented) line, and continuation lines of nested quotes with their own prefix widths and spellings. Tab twins are compared modulo exactly the statement's allowance: leading whitespace inside "
     "verbatim block lines and after a line break inside inline content, and blank runs of code spans. Non-trivial = twin whose "
     "spellings differ and whose structure has >=1 container; distinct by the two spellings."
+    " Also: inline constructs continued on tab-indented lines, and documents of 2-4 constructed lines each with its own spelling."
 )
 ASSUMPTIONS = ["tab stops every 4 columns counted from the start of the physical line", "allowed-difference normaliser strips leading blanks of verbatim lines and of inline content after a line break, collapses blank runs in code spans"]
 NSHARDS = {"quick": 16, "thorough": 32}
